@@ -217,10 +217,11 @@ def check_tuple(ctx, fix_slice, shape, t, cases, where):
 
 
 def check_combine_nd(ctx, fns, rng, n):
-    """combine_slices on rank 2 and 3 (oracle only): the stored tuple as the proxies hold it — a strided slice, a plain
+    """combine_slices on rank 2 and 3 (oracle, and since round 7 also the model): the stored tuple as the proxies hold it — a strided slice, a plain
     `slice(None)` (what a URL hyperslab leaves for the axes it does not name), a normalised slice — per axis, in any
     arrangement; the second tuple normalised for the shape the stored one leaves"""
     fix_slice, combine_slices, hyperslab, parse_hyperslab = fns
+    nd_cases = []
     for _ in range(n):
         shape = tuple(rng.randint(1, 6) for _ in range(rng.choice([2, 2, 3])))
         x = np.arange(int(np.prod(shape))).reshape(shape)
@@ -252,10 +253,23 @@ def check_combine_nd(ctx, fns, rng, n):
         exp = view[tuple(slice(e, e + 1) if isinstance(e, int) else e for e in second)]
         case = {"fn": "combine_slices_nd", "shape": list(shape), "stored": repr(stored), "second": repr(second),
                 "second_fixed": repr(f2)}
+        # (theorem audit, round 7: C03_combine_tuple) the tuple-level function is tied to the model too, and in half of the
+        # cases the stored tuple is given WITHOUT its trailing slice(None) entries (zip_longest fills them in again)
+        stored_arg = stored
+        if rng.random() < 0.5:
+            k = len(stored)
+            while k > 0 and stored[k - 1] == slice(None):
+                k -= 1
+            stored_arg = stored[:k]
+        case["stored_given"] = repr(stored_arg)
         try:
-            c = combine_slices(stored, f2)
+            c = combine_slices(stored_arg, f2)
+            nd_cases.append(("combine %s %s" % (tup_sexp(stored_arg), tup_sexp(f2)), canon_slices(c),
+                             {"shape": list(shape), "s1": repr(stored_arg), "s2": repr(f2)}))
             got = x[tuple(slice(e, e + 1) if isinstance(e, int) else e for e in c)]
         except Exception as e:
+            nd_cases.append(("combine %s %s" % (tup_sexp(stored_arg), tup_sexp(f2)), "escaped:" + err_class(e),
+                             {"shape": list(shape), "s1": repr(stored_arg), "s2": repr(f2)}))
             ctx.oracle_fail("combine_slices raised (rank %d)" % len(shape), case, err_class(e), exp.tolist(), size=x.size)
             continue
         if got.shape != exp.shape or not (got == exp).all():
@@ -265,6 +279,7 @@ def check_combine_nd(ctx, fns, rng, n):
                   tag="nd:rank%d:%s" % (len(shape), "strided-before-plain" if any(
                       (a.step or 1) > 1 and any(b == slice(None) for b in stored[i + 1:]) for i, a in enumerate(stored)) else "other"),
                   sample=case)
+    ctx.correspond("combine_slices (whole tuples, zip_longest)", nd_cases)
 
 
 MALFORMED = ["[", "]", "[]", "[1:2:3:4]", "[a]", "[1:b]", "[1][", "[1:2]]", "[[1]]", "[1:2:3][4:5:6:7]", "[ 1 : 2 ]",
@@ -464,7 +479,8 @@ def replay(payload):
         x = np.arange(int(np.prod(shape))).reshape(shape)
         s1, s2, f2 = eval(c["stored"], g), eval(c["second"], g), eval(c["second_fixed"], g)
         one = lambda t: tuple(slice(e, e + 1) if isinstance(e, int) else e for e in t)
-        got, exp = x[one(combine_slices(s1, f2))], x[s1][one(s2)]
+        given = eval(c["stored_given"], g) if "stored_given" in c else s1
+        got, exp = x[one(combine_slices(given, f2))], x[s1][one(s2)]
     elif c["fn"] == "combine_slices":
         x = np.arange(c["N"])
         s1, s2, f2 = eval(c["stored"], g), eval(c["second"], g), eval(c["second_fixed"], g)
